@@ -8,7 +8,7 @@
    inside the C++ preconditions); the recorded traces are validated by TLC (FixedStringTrace.tla)
  * known-finding avoidance / classification, replay
 """
-import json, os, random, re, subprocess, time
+import json, os, random, re, subprocess, time, zlib
 from concurrent.futures import ProcessPoolExecutor, ThreadPoolExecutor
 from vlib import core
 from vlib.core import MachineryError
@@ -228,7 +228,8 @@ def s2c_worker(args):
             if key in d:
                 d[key][1].append((l["res"], t["q"]))          # a second allowed outcome of the same call
             else:
-                if keep < 1.0 and rnd.random() >= keep:
+                # a seeded sample that does not depend on the order in which TLC's workers printed the lines
+                if keep < 1.0 and (zlib.crc32(("%d|%s|%s" % (seed, pre, key)).encode()) & 0xFFFFFF) / float(0x1000000) >= keep:
                     continue
                 d[key] = (call, [(l["res"], t["q"])], key)
     script, expect = [reset_event(cfgd)], [None]
